@@ -4,11 +4,11 @@
 WT=$1; shift
 cd $WT || exit 2
 echo "== tests with change"; /venv/bin/python -m pytest -q -p no:cacheprovider tests 2>&1 | tail -1
-echo "== demo with change"; /venv/bin/python seed/demo.py > /tmp/seed/demo_with.log 2>&1; echo "exit $?"; tail -2 /tmp/seed/demo_with.log | cut -c1-200
-git diff -- aquacrop > /tmp/seed/current.diff
+echo "== demo with change"; /venv/bin/python seed/demo.py > $WT/seed/demo_with.log 2>&1; echo "exit $?"; tail -2 $WT/seed/demo_with.log | cut -c1-200
+git diff -- aquacrop > $WT/seed/current.diff
 git checkout -- aquacrop
-echo "== demo without change"; /venv/bin/python seed/demo.py > /tmp/seed/demo_without.log 2>&1; echo "exit $?"; tail -1 /tmp/seed/demo_without.log | cut -c1-200
-git apply /tmp/seed/current.diff
+echo "== demo without change"; /venv/bin/python seed/demo.py > $WT/seed/demo_without.log 2>&1; echo "exit $?"; tail -1 $WT/seed/demo_without.log | cut -c1-200
+git apply $WT/seed/current.diff
 for P in "$@"; do
   echo "== our check $P on the changed tree"
   (cd /verif && VERIF_REPO=$WT VERIF_NO_EVIDENCE=1 ./check check $P 2>&1 | grep -E "^VIOLATION|signature|summary|HARNESS" | cut -c1-260)
